@@ -216,7 +216,10 @@ func (u *uploader) ListParts(bucket, object string, uploadID UploadID, marker in
 	}
 
 	var cnt int64
-	for partNumber, part := range mpu.parts[marker:] {
+	// partNumber must be the index into mpu.parts, not into the slice that
+	// remains after the marker; a marker beyond the last part lists nothing.
+	for partNumber := marker; partNumber < len(mpu.parts); partNumber++ {
+		part := mpu.parts[partNumber]
 		if part == nil {
 			continue
 		}
